@@ -92,7 +92,8 @@ func main() {
 			"(read-after-set, newline truncation, not-set after unset, case-insensitivity of value and of the set/not-set flag, sub-field read-back, frame rule for other sub-fields, other headers and the other object). " +
 			"All sequences of length <=3 over a reduced alphabet are enumerated for req/RECV (and length <=2 for every other target); longer ones are PRNG. non-trivial = sequence with >=2 operations on the same header name; distinct by hash of the sequence",
 		Assumptions: []string{
-			"`add`, `+=` and wildcard unset are held only to what the property states (header becomes set / case-insensitive / other headers untouched), not to a value model",
+			"`add` and `+=` are held only to what the property states (header becomes set / case-insensitive / other headers untouched) plus: `add` never replaces what a set header reads; not to a full value model",
+			"sub-field keys are compared case-insensitively by falco's field grammar (case-sensitively for cookies); the check asserts read-after-write through the spelling that was written and exempts case variants of the written key from the sibling frame rule",
 			"sub-field values containing separators, quotes or '=' are asserted only through read-after-write of that key, not through the frame rule on sibling keys",
 			"the order of sub-fields inside the header value is not part of the property and is not asserted",
 		},
